@@ -14,6 +14,7 @@ import (
 
 	"github.com/ucan-wg/go-ucan/pkg/args"
 	"github.com/ucan-wg/go-ucan/pkg/command"
+	"github.com/ucan-wg/go-ucan/pkg/policy"
 	"github.com/ucan-wg/go-ucan/token/delegation"
 	"github.com/ucan-wg/go-ucan/token/invocation"
 
@@ -37,6 +38,7 @@ type Link struct {
 	LoaderErr bool       `json:"loader_err,omitempty"`
 	Decoded   bool       `json:"decoded,omitempty"`
 	Nonce     byte       `json:"nonce,omitempty"`
+	SpareCap  bool       `json:"spare_cap,omitempty"` // hand the policy over as a slice with spare capacity (as left by append)
 }
 
 type Hook struct {
@@ -121,6 +123,13 @@ func BuildLink(l Link) (*delegation.Token, cid.Cid, []byte, error) {
 	p, err := l.Pol.Build(l.PolIPLD)
 	if err != nil {
 		return nil, cid.Undef, nil, fmt.Errorf("policy: %w", err)
+	}
+	if l.SpareCap {
+		// a caller that assembled its policy with append hands over a slice whose
+		// capacity exceeds its length; the content is the same
+		p2 := make(policy.Policy, len(p), len(p)+8)
+		copy(p2, p)
+		p = p2
 	}
 	opts := []delegation.Option{delegation.WithNonce(nonce("dlg", l.Nonce, 12))}
 	if l.Sub >= 0 {
